@@ -460,6 +460,7 @@ def main(seed, ncases, driver, out, mode="all"):
         force = DESIGNED[c] if c < len(DESIGNED) and (mode == "all" or not DESIGNED[c]["hermitian"]) else None
         if force: hermitian = force["hermitian"]
         P = gen_problem(rnd, hermitian, force)
+        while mode == "nhsafe" and d5_class(P): P = gen_problem(rnd, hermitian, None)      # (formats stream: non-Hermitian problems outside the class of finding D5)
         maxn = (3,) if P["k"] == 1 else (2, 1)
         reqs = [(nm, i, j, n) for n in itertools.product(*[range(m + 1) for m in maxn]) for nm in ("H_tilde", "U", "U†") for i in range(P["N"]) for j in range(P["N"])]
         rnd.shuffle(reqs)
@@ -499,6 +500,8 @@ def main(seed, ncases, driver, out, mode="all"):
         # floating-point carriers against the exact model value (rounding proportional to the size of the terms)
         if not any(f["case"] == c for f in failures):
             variant = choose_variant(P, rnd); carrier = variant
+            if not hermitian and c % 8 in (0, 1):      # pre-separated sparse blocks in the non-Hermitian algorithm: the values reach the solver as the caller's own objects
+                variant.update(designation="blocked", carrier="sparse", container="dict", int_h0=False, scale_exp=0); variant.pop("interleave", None); variant.pop("sparse_vectors", None)
             for kk in ("carrier", "designation", "container"): num_stats[kk + "=" + variant[kk]] = num_stats.get(kk + "=" + variant[kk], 0) + 1
             if variant["int_h0"]: num_stats["int_h0"] = num_stats.get("int_h0", 0) + 1
             if variant.get("level_rotation"): num_stats["level_rotation"] = num_stats.get("level_rotation", 0) + 1
@@ -523,7 +526,7 @@ def main(seed, ncases, driver, out, mode="all"):
                 if err > 1e-9 * scale:
                     failures.append({"case": c, "kind": "value-mismatch-numeric", "carrier": carrier, "request": list(r[:3]) + [list(r[3])], "abs_err": err,
                                      "problem": ser_problem(P)}); break
-        if (hermitian or mode == "nh") and not any(f["case"] == c for f in failures) and impl and impl[0][0] != "exc":
+        if (hermitian or mode in ("nh", "nhsafe")) and not any(f["case"] == c for f in failures) and impl and impl[0][0] != "exc":
             t0 = time.time()
             try:
                 o = oracle(P, reqs, impl, maxn)
